@@ -30,16 +30,10 @@ def worker_init():
 
 
 def jobs(tier, seed):
-    ops = list(range(64))
-    if tier == 'quick':
-        import random
-        rnd = random.Random(seed)
-        # the dense opcodes (19, 31, 59, 63 carry the extended-opcode tables) always; others sampled
-        dense = [16, 18, 19, 31, 59, 63]
-        rest = [o for o in ops if o not in dense]
-        rnd.shuffle(rest)
-        ops = dense + rest[:14]
-    return [('op', o, tier) for o in sorted(ops)]
+    # every primary opcode in both tiers (a sample of opcodes would miss a class-specific defect; the dense opcodes 19, 31, 59, 63
+    # dominate the time anyway) - longest first
+    ops = [31, 19, 63, 59] + [o for o in range(64) if o not in (31, 19, 63, 59)]
+    return [('op', o, tier) for o in ops]
 
 
 def _extreme(eng, t, lo_first=True):
